@@ -266,6 +266,9 @@ def m_tuple(interp, args, kwargs):
     if isinstance(src, (SOpt, SChoice)):
         src = interp.resolve(src)
     if isinstance(src, SList):
+        from .mlist import MList
+        if isinstance(src, MList):
+            return src.copy(interp)      # (a later mutation of the list must not show in the tuple)
         return src
     return tuple(interp.iterate(src))
 
@@ -743,6 +746,9 @@ def slist_iter(interp, xs):
 
 
 def slist_copy(interp, xs):
+    from .mlist import MList
+    if isinstance(xs, MList):
+        return xs.copy(interp)
     return xs
 
 
